@@ -88,7 +88,11 @@ def gen_string(r):
     if c < 0.16:
         return r.choice(["°C", "µs", "Ω", "mm²", "m/s²", "温度", "é", "kΩ·m", "‰", "naïve ünits",
                          "\u2126", "\u212b", "\u212a", "e\u0301", "n\u0303o", "\ufb01"])  # the last six are not NFC-normalised
-    if c < 0.32:
+    if c < 0.21:
+        # text that looks like syntax, and literal TAB characters (strings are kept verbatim)
+        return r.choice(["// not a comment", "/* nor this */", "a // b /* c", "struct X { }", "mod a.b;", "|", ",",
+                         "m\ts", "\t", "a\t\tb ", " \tkm/h"])
+    if c < 0.37:
         parts = []
         for _ in range(r.randint(1, 4)):
             parts.append(r.choice(ESCAPES) if r.random() < 0.6 else "".join(r.choice(STR_CHARS) for _ in range(r.randint(1, 4))))
@@ -97,13 +101,15 @@ def gen_string(r):
         if r.random() < 0.3:
             parts.insert(0, '\\"')
         return "".join(parts)
-    if c < 0.2:
-        return r.choice(["// not a comment", "/* nor this */", "a // b /* c", "struct X { }", "mod a.b;", "|", ","])
     return "".join(r.choice(STR_CHARS) for _ in range(r.randint(1, 10)))
 
 
 def gen_number(r):
     c = r.random()
+    if c < 0.08:
+        # the same numbers spelled with leading zeros / an exponent
+        return r.choice([("num", 42, "0042"), ("num", 16, "016"), ("num", 7, "007"), ("num", -8, "-08"), ("num", 0, "00"),
+                         ("num", 1000.0, "1e3"), ("num", 0.5, "00.5"), ("num", 10, "010")])
     if c < 0.5:
         return r.choice([0, 1, -1, 7, 10, 255, 2047, 65536, -32768, 2 ** 31, 10 ** 12, r.randint(-1000, 5000)])
     return r.choice([1.5, -0.25, 3.0, 1e3, 2.5e-3, -1e-9, 1e300, 0.0, 123456.789])
@@ -154,7 +160,8 @@ def gen_struct(r, name, types, nfields=(1, 6)):
         if r.random() < 0.3:
             lo = r.choice([0, 0.0, -1.5, 2.25, -100, 1e-3])
             hi = r.choice([10, 10.0, 1e6, 3.5, 255, 1e12])
-            f["range"] = (lo, hi)
+            # (one range in six is written descending, range(4095, 0): min and max are what the source says)
+            f["range"] = (hi, lo) if r.random() < 0.17 else (lo, hi)
         fields.append(f)
     return {"kind": "struct", "name": name, "fields": fields}
 
